@@ -167,8 +167,16 @@ def replay_item(payload, getters=("short", "long")):
     text = payload["file"]
     tail = payload["argv"]
     choices = payload.get("choices") or []
-    obs = lprun.run_solver(text, tail, Env(choices), getters=getters)
-    return obs
+    try:
+        obs = lprun.run_solver(text, tail, Env(choices), getters=getters)
+        if not obs.get("aux_reads"):
+            return obs
+    except HarnessError:
+        pass
+    # the exploration had switched to "every optimal full point is a class"
+    # (a getter read an auxiliary variable): replay in the same mode
+    return lprun.run_solver(text, tail, Env(choices), getters=getters,
+                            observe_all=True)
 
 
 LP_ASSUMPTIONS = [
@@ -242,6 +250,8 @@ def run_lp_check(pid, level, tier, judge, rule, *, getters=("short", "long"),
         "items_instance_x_options": c.get("items", 0),
         "max_fanout_optimal_classes": c.get("max_fanout", 0),
         "read_certificate_failed_items": c.get("read_certificate_failed_items", 0),
+        "projection_certificate_failed_items": c.get("projection_certificate_failed_items", 0),
+        "solves_delegated_to_real_cbc_not_enumerated": c.get("solves_delegated_to_real_cbc", 0),
         "conformance_runs_real_cbc": c.get("conformance_runs", 0),
         "sentinel_rechecks_from_non_initial_process_state": c.get("sentinel_rechecks", 0),
         "interleaved_two_solver_histories": c.get("interleaved_histories", 0),
